@@ -668,6 +668,94 @@ class DiagramRule(FileRule, BaseModuleSpecifier, RuleApplier):
             raise AssertionError("\\n".join(self._messages))
 """}, expect="C07.R2")
 
+# ---------------------------------------------------------------------------------------------- third batch
+variant("conv-table-driven-unbound", {DCV: CONV_HEAD + """
+def _named(name):
+    return Rule().modules_that().are_named(name)
+
+
+class DependencyToRuleConverter:
+    def __init__(self, should_only_rule: bool) -> None:
+        self._verb = Rule.should_only if should_only_rule else Rule.should
+
+    def convert(self, dependencies: ParsedDependencies) -> list[RuleApplier]:
+        rules: list[RuleApplier] = []
+        for create in (self._convert_should_rules, self._convert_should_not_rules):
+            rules.extend(create(dependencies))
+        return rules
+
+    def _convert_should_rules(self, dependencies: ParsedDependencies) -> list[RuleApplier]:
+        return [self._verb(_named(importer)).import_modules_that().are_named(list(importees)) for importer, importees in dependencies.dependencies.items()]
+
+    @classmethod
+    def _convert_should_not_rules(cls, parsed_dependencies: ParsedDependencies) -> list[RuleApplier]:
+        rules: list[RuleApplier] = []
+        emit = rules.append
+        for possible_importer in sorted(parsed_dependencies.all_modules):
+            not_imported = set(parsed_dependencies.all_modules)
+            not_imported -= {possible_importer}
+            not_imported -= parsed_dependencies.dependencies.get(possible_importer, set())
+            if not_imported:
+                emit(Rule.should_not(_named(possible_importer)).import_modules_that().are_named(sorted(not_imported)))
+        return rules
+"""})
+
+variant("mra-filter-none-callback", {MUL: MUL_HEAD + """
+class MultipleRuleApplier(RuleApplier):
+    def __init__(self, rule_appliers: list[RuleApplier]) -> None:
+        self._rule_appliers = rule_appliers
+
+    def assert_applies(self, evaluable: EvaluableArchitecture) -> None:
+        error_messages: list[str] = []
+        for rule_applier in self._rule_appliers:
+            self._apply(rule_applier, evaluable, on_violation=error_messages.append)
+        error_messages = list(filter(None, error_messages))
+        if not error_messages:
+            return
+        raise AssertionError("\\n".join(error_messages)) from None
+
+    @staticmethod
+    def _apply(rule_applier, evaluable, on_violation) -> None:
+        try:
+            rule_applier.assert_applies(evaluable)
+        except AssertionError as e:
+            on_violation(e.args[0])
+"""})
+
+variant("drule-bypass-convert-inline-prefix", {DRU: DRU_HEAD + PREFIXER_PLAIN + """
+class DiagramRule(FileRule, BaseModuleSpecifier, RuleApplier):
+    def __init__(self, should_only_rule: bool = True) -> None:
+        self._file_path: Path | None = None
+        self._base: str | None = None
+        self._should_only_rule = should_only_rule
+
+    def from_file(self, file_path: Path) -> BaseModuleSpecifier:
+        self._file_path = file_path
+        return self
+
+    def with_base_module(self, name_relative_to_root: str) -> RuleApplier:
+        self._base = name_relative_to_root
+        return self
+
+    def base_module_included_in_module_names(self) -> RuleApplier:
+        return self
+
+    def _qualified(self, name: str) -> str:
+        return name if self._base is None else f"{self._base}.{name}"
+
+    def assert_applies(self, evaluable: EvaluableArchitecture) -> None:
+        if self._file_path is None:
+            raise ImproperlyConfigured("A file path pointing to the diagram has to be specified.")
+        parsed = PumlParser().parse(self._file_path)
+        qualified = ParsedDependencies(
+            {self._qualified(m) for m in parsed.all_modules},
+            {self._qualified(k): {self._qualified(v) for v in vs} for k, vs in parsed.dependencies.items()},
+        )
+        converter = DependencyToRuleConverter(self._should_only_rule)
+        rules = converter._convert_should_rules(qualified) + converter._convert_should_not_rules(qualified)
+        MultipleRuleApplier(rules).assert_applies(evaluable)
+"""})
+
 def main() -> int:
     here = Path(__file__).resolve().parents[1]
     sys.path.insert(0, str(here))
